@@ -27,6 +27,17 @@ func VerifRecordedBookOptions(header *options.HeaderOption, bookOpts *tableaupb.
 	return p.wb.Options
 }
 
+// VerifRecordedDocOptions returns the workbook options protogen records into
+// the generated proto file of a document (YAML/XML) workbook.
+func VerifRecordedDocOptions(header *options.HeaderOption, bookOpts *tableaupb.WorkbookOptions) *tableaupb.WorkbookOptions {
+	opts := options.NewDefault()
+	opts.Proto.Input.Header = header
+	gen := NewGeneratorWithOptions("protoconf", ".", ".", opts)
+	p := newDocumentParser("Book", "", "Book.yaml", gen)
+	p.mergeBookOptions(bookOpts)
+	return p.wb.Options
+}
+
 // VerifPrepareOutdir is prepareOutdir.
 func VerifPrepareOutdir(outdir string, importFiles []string, delExisted bool) error {
 	return prepareOutdir(outdir, importFiles, delExisted)
